@@ -98,6 +98,20 @@ class SamplerRun:
         self.req_info = {}        # req id -> dict(call, bi, held=pool entries at submission)
         self._nreq = 0
         sp.mark_client(self.client, lambda: self.cur_req)
+        if wl.get('refuse_submit_at') is not None:
+            # injected fault: the client refuses ONE submission (a transient scheduler /
+            # connection error); the exception leaves submit(), nothing was registered
+            inner_apply = self.client.apply
+            n_apply = [0]
+
+            def apply(kallable, *args, **kwargs):
+                n_apply[0] += 1
+                if n_apply[0] == wl['refuse_submit_at']:
+                    out.stats['submit_refused'] += 1
+                    out.ev('C apply refused (transient error)')
+                    raise sp.SubmitRefused('injected transient submission failure')
+                return inner_apply(kallable, *args, **kwargs)
+            self.client.apply = apply
         if model is None:
             if wl.get('fail_bi') is not None:
                 # injected fault: the simulator fails once, in one particular batch
@@ -112,6 +126,7 @@ class SamplerRun:
         self.rounds = []          # SMC round in force when each batch was consumed
         self.call_no = 0
         self.results = []
+        self.result_fps = []      # what each returned result said at the moment it was returned
         self.errors = []
         kw = dict(batch_size=wl['batch_size'], seed=wl['seed'],
                   max_parallel_batches=sched['mpb'])
@@ -238,7 +253,19 @@ class SamplerRun:
             if left:
                 self.out.violate('clean-at-return', 'backend-queue', left=left[:5])
         self.results.append(res)
+        self.result_fps.append(sample_fingerprint(res))
         return res
+
+    def check_results_stable(self, clause):
+        """A result that was returned stays what it was: continuing the same sampler object
+        (a second sample(), a hand-driven continuation) must not reach back into it."""
+        for i, (res, fp) in enumerate(zip(self.results, self.result_fps)):
+            d = fp_diff(fp, sample_fingerprint(res))
+            if d:
+                self.out.violate(clause, 'earlier-result-changed', result_no=i, diff=d,
+                                 calls=self.call_no)
+                return False
+        return True
 
     def drive_manually(self, n_samples, peek_after=(), **objective):
         """The documented manual way: set_objective + iterate() until finished +
@@ -252,7 +279,12 @@ class SamplerRun:
             s.set_objective(n_samples, **objective)
             it = 0
             while not s.finished:
-                s.iterate()
+                try:
+                    s.iterate()
+                except sp.SubmitRefused:
+                    # the user simply calls iterate() again
+                    self.out.stats['submit_refused_then_iterate_again'] += 1
+                    continue
                 it += 1
                 if it in peek_after and not s.finished:
                     try:
@@ -277,6 +309,7 @@ class SamplerRun:
             self.out.ev('S manual drive raised %s' % type(e).__name__)
             return None
         self.results.append(res)
+        self.result_fps.append(sample_fingerprint(res))
         return res
 
     def drain(self):
@@ -426,7 +459,10 @@ def gen_rejection_workload(tape, spec, pil, extra_outputs=True, allow_threshold=
         wl['bar'] = True
     if (allow_default if allow_failure is None else allow_failure) and \
             tape.chance('simulator_failure', 1, 8):
-        wl['fail_bi'] = tape.int('failing_batch', 0, 3)
+        if tape.chance('failure_is_refused_submission', 1, 2):
+            wl['refuse_submit_at'] = tape.int('refused_submission', 1, 6)
+        else:
+            wl['fail_bi'] = tape.int('failing_batch', 0, 3)
     modes = ['n_sim', 'quantile'] + (['threshold'] if allow_threshold and len(pil) >= 5 else [])
     mode = tape.choice('objective', modes)
     if allow_default and n <= 2 and tape.chance('default_objective', 1, 10):
